@@ -28,6 +28,7 @@ SIG_D = "Defocus-PSF|disc-off-centre"
 SIG_D0 = "Defocus-PSF|param-0:IndexError"
 SIG_PG = "Poisson1D.__init__|range-grid-ignores-endpoint"
 SIG_HS = "Heat1D.__init__|field_type-Step+map:AttributeError"
+SIG_PP = "cuqi.data.p_power|odd-size:wrong-shape"
 
 # ------------------------------------------------------------------------------------------------
 # encoders
@@ -241,6 +242,10 @@ def probe_state(force=False):
         from cuqi.testproblem import Poisson1D
         with ScriptedRandom(seed=0):
             _STATE["pgrid_fixed"] = bool(Poisson1D(dim=3, endpoint=2, source=lambda xs: 1 + 0 * xs).model.range_geometry.grid[0] == 1.0)
+            try:
+                _STATE["ppower_fixed"] = cuqi.data.p_power(size=5).shape == (5, 5)
+            except Exception:
+                _STATE["ppower_fixed"] = False
             try:
                 from cuqi.testproblem import Heat1D
                 Heat1D(dim=4, field_type="Step", field_params={"n_steps": 2}, map=lambda x: 2 * x + 1)
@@ -728,8 +733,7 @@ def deconv1d_cases(spec, cell):
         elif shipped[0] == "defocus":
             Pt = "(defocus_psf_1d %s %s %s)" % (cbool(st["defocus_fixed"]), cnat(shipped[1]), cqc(shipped[2]))
         else:   # gauss: the PSF the shipped generator returns (its entries are enclosed over R by the PSF cells)
-            g, _ = T._GaussPSF_1D(shipped[1], shipped[2])
-            Pt = cqcvec(fl(g))
+            Pt = cqcvec(docP)              # documented Gaussian PSF (plain Python); the generator itself is tied by the PSF cells
         body = ("check_deconv1_qr" if spec.get("scale") else "check_deconv1_q") + " tol9 %s %s P %s %s %s %s" % (cbool(st["asm_fixed"]), bcn, cnat(n), cqcmat(fl2(A)), cqcvec(x), cqcvec(Ax))
         if shipped is not None and shipped[0] in ("moffat", "defocus"):
             expr = "match %s with Some P => %s | None => false end" % (Pt, body)
@@ -743,6 +747,8 @@ def deconv1d_cases(spec, cell):
     if not isinstance(ph, str) and not close(x, ph):
         cases.append(verdict_case(spec, cell, "exactSolution is not the given phantom", "Deconvolution1D|phantom"))
     stated = ("scaled" if kw.get("noise_type", "gaussian").lower() == "scaledgaussian" else "std", float(kw.get("noise_std", 0.01)))
+    if spec.get("x") is not None:
+        spec = dict(spec, _mx_ref=[float(v) for v in ref_conv1([float(v) for v in spec["x"]], docP, mode)])   # documented operator, not model.forward
     cases += common_cases(spec, tp, d, cell, stated, info_deconv(kw))
     return cases
 
@@ -846,6 +852,8 @@ def legacy_cases(spec, cell):
     if not close(Ax, matvec(dense(tp.model.get_matrix()).tolist(), x)):
         cases.append(verdict_case(spec, cell, "exactData != A exactSolution", "deconv1d-legacy|exactData"))
     stated = ("scaled" if kw.get("noise_type", "gaussian").lower() == "scaledgaussian" else "std", float(kw.get("noise_std", 0.01)))
+    if spec.get("x") is not None:
+        spec = dict(spec, _mx_ref=[float(v) for v in matvec(ref, [float(v) for v in spec["x"]])])      # documented circulant, not model.forward
     cases += common_cases(spec, tp, d, cell, stated, info_deconv(kw))
     return cases
 
@@ -862,6 +870,7 @@ def deconv2d_cases(spec, cell):
     mode, bcn = BC2[kw.get("BC", "periodic").lower()]
     tp, d, err = construct(spec)
     cases = []
+    close = rclose if spec.get("scale") else globals()["close"]
     if isinstance(P, str):
         size, param = kw.get("PSF_size", 21), kw.get("PSF_param", 2.56)
         docP = doc_psf_2d(P, size, param)
@@ -870,10 +879,16 @@ def deconv2d_cases(spec, cell):
                 return [Case(expr=cbool(not st["defocus_fixed"]), meta=spec, cell=cell + "/refused", kind="DECISION", trivial=True),
                         verdict_case(spec, cell, "Deconvolution2D(PSF='Defocus', PSF_param=0) raises %s; documented: the delta PSF" % err, SIG_D0)]
             raise RuntimeError("unexpected refusal %s for %r" % (err, spec))
-        usedP = fl2(tp.Miscellaneous["PSF"])
+        usedP = docP                      # the documented PSF (plain Python), not what the problem stores
+        if not close(fl2(tp.Miscellaneous["PSF"]), docP) and not (P.lower() == "defocus" and not st["defocus_fixed"]):
+            cases.append(verdict_case(dict(spec, obs="Miscellaneous"), cell, "Miscellaneous['PSF'] is not the documented PSF", "Deconvolution2D|Miscellaneous"))
     else:
         docP = [[float(v) for v in r] for r in P]
         square = len(docP) == len(docP[0])
+        if tp is None and isinstance(kw.get("phantom"), str):
+            sig = SIG_PP if (spec.get("phantom_ref") == "p_power" and n % 2 == 1 and "reshape" in err) else "Deconvolution2D|phantom-name-refused"
+            return [Case(expr=cbool(sig == SIG_PP and not st.get("ppower_fixed", False)), meta=spec, cell=cell + "/refused", kind="DECISION", trivial=True),
+                    verdict_case(spec, cell, "Deconvolution2D(dim=%d, phantom=%r) cannot be constructed: %s" % (n, kw["phantom"], err), sig)]
         if tp is None:
             X = [[float(v) for v in r] for r in kw["phantom"]]
             expr = "check_deconv2_zq tol9 %s %s %s None" % (bcn, czmat(docP), czmat(X))
@@ -901,7 +916,22 @@ def deconv2d_cases(spec, cell):
             n, P if isinstance(P, str) else docP, kw.get("BC", "periodic"), img.tolist(), Fimg.tolist(), ref)
     elif not close(Y, ref_conv2(X.tolist(), docP, mode)):
         detail, sig = "exactData is not the documented convolution of exactSolution", "Deconvolution2D.forward|exactData"
+    # adjoint as documented in the code: the same padded convolution with the PSF flipped in both axes (its being the
+    # transpose of the forward map is C07's property; here: it is THAT operator, for every BC / PSF shape)
+    flipP = [r[::-1] for r in docP[::-1]]
+    refB = ref_conv2(img.tolist(), flipP, mode)
+    if not close(Bimg, refB):
+        cases.append(verdict_case(dict(spec, obs="adjoint"), cell + "/backward",
+                                  "Deconvolution2D(dim=%d, PSF=%s, BC=%s).model.adjoint(%s) = %s but the convolution with the PSF flipped in both axes is %s" % (
+                                      n, P if isinstance(P, str) else docP, kw.get("BC", "periodic"), img.tolist(), Bimg.tolist(), refB), "Deconvolution2D.adjoint|not-flipped-PSF-convolution"))
     ph = kw.get("phantom")
+    if isinstance(ph, str) and spec.get("phantom_ref"):
+        import cuqi
+        with warnings.catch_warnings():
+            warnings.simplefilter("ignore")
+            want_img = np.asarray(getattr(cuqi.data, spec["phantom_ref"])(size=n), dtype=float)
+        if want_img.shape != (n, n) or not np.array_equal(want_img, X):
+            cases.append(verdict_case(dict(spec, obs="phantom"), cell, "Deconvolution2D(phantom=%r): exactSolution is not cuqi.data.%s(size=%d)" % (ph, spec["phantom_ref"], n), "Deconvolution2D|phantom-name"))
     if detail is None and ph is not None and not isinstance(ph, str) and not close(X, np.array(ph, dtype=float).reshape(n, n)):
         detail, sig = "exactSolution is not the given phantom", "Deconvolution2D|phantom"
     if is_int(usedP):
@@ -912,11 +942,16 @@ def deconv2d_cases(spec, cell):
     else:
         cases.append(Case(expr=("check_deconv2_qr" if spec.get("scale") else "check_deconv2_q") + " tol9 %s %s %s %s" % (bcn, cqcmat(usedP), cqcmat(img.tolist()), cqcmat(fl2(Fimg))),
                           meta=dict(spec, obs="forward"), cell=cell + "/forward", kind="EXACT"))
+        cases.append(Case(expr=("check_backward2_qr" if spec.get("scale") else "check_backward2_q") + " tol9 %s %s %s %s" % (bcn, cqcmat(usedP), cqcmat(img.tolist()), cqcmat(fl2(Bimg))),
+                          meta=dict(spec, obs="adjoint-code"), cell=cell + "/backward", kind="EXACT"))
     cases.append(Case(expr=("check_deconv2_qr" if spec.get("scale") else "check_deconv2_q") + " tol9 %s %s %s %s" % (bcn, cqcmat(usedP), cqcmat(fl2(X)), cqcmat(fl2(Y))),
                       meta=dict(spec, obs="exactData"), cell=cell + "/exactData", kind="EXACT"))
     if detail:
         cases.append(verdict_case(dict(spec, obs="forward"), cell + "/forward", detail, sig))
     stated = ("scaled" if kw.get("noise_type", "gaussian").lower() == "scaledgaussian" else "std", float(kw.get("noise_std", 0.0036)))
+    if spec.get("x") is not None:
+        xim = np.array(spec["x"], dtype=float).reshape(n, n).tolist()
+        spec = dict(spec, _mx_ref=[float(v) for r in ref_conv2(xim, docP, mode) for v in r])
     cases += common_cases(spec, tp, d, cell, stated, info_deconv(dict(kw, noise_std=kw.get("noise_std", 0.0036))))
     return cases
 
@@ -924,6 +959,11 @@ def deconv2d_cases(spec, cell):
 # ------------------------------------------------------------------------------------------------
 # Abel1D, Poisson1D, Heat1D
 # ------------------------------------------------------------------------------------------------
+def identity_field(kw):
+    ft = kw.get("field_type")
+    return "fmap" not in kw and "field" not in kw and (ft is None or type(ft).__name__ == "Continuous1D")
+
+
 def abel_cases(spec, cell):
     kw = spec["kw"]
     n, ep = kw["dim"], kw.get("endpoint", 1)
@@ -944,6 +984,8 @@ def abel_cases(spec, cell):
         cases.append(verdict_case(spec, cell, "exactSolution is not sin(pi t)exp(-2t) on the quadrature nodes", "Abel1D|exactSolution"))
     elif not close(fl(tp.exactData), matvec(ref, xs)):
         cases.append(verdict_case(spec, cell, "exactData is not the quadrature applied to exactSolution", "Abel1D|exactData"))
+    if spec.get("x") is not None and spec.get("_mx_ref") is None and identity_field(kw):
+        spec = dict(spec, _mx_ref=[float(v) for v in matvec(ref, [float(v) for v in spec["x"]])])
     cases += common_cases(spec, tp, d, cell, ("snr", float(kw.get("SNR", 100))), None)
     return cases
 
@@ -958,6 +1000,15 @@ def poisson_cases(spec, cell):
     dx = ep / N
     kappa = fl(tp.exactSolution)          # function values of the conductivity
     supplied_fail = None
+    default_cases = []
+    if "exactSolution" not in kw:       # documented default: exp(5 x exp(-2x) sin(endpoint - x)) on the domain nodes linspace(0, endpoint, dim)
+        gd = [float(v) for v in np.linspace(0, ep, n)]
+        want_k = [math.exp(5 * g_ * math.exp(-2 * g_) * math.sin(ep - g_)) for g_ in gd]
+        if not rclose(kappa, want_k):
+            supplied_fail = "default exactSolution %s is not exp(5x exp(-2x) sin(endpoint-x)) on linspace(0,endpoint,dim): %s" % (kappa, want_k)
+        for i_, g_ in enumerate(gd):
+            e_, tac_ = encl("(poisson_default_R %s %s)" % (cr(Fraction(ep)), cr(g_)), kappa[i_])
+            default_cases.append(Case(expr=e_, tac=tac_, kind="ENCLOSURE", meta=dict(spec, obs="default-exactSolution", entry=i_), cell=cell + "/default-exactSolution"))
     if "exactSolution" in kw:
         if not np.array_equal(np.asarray(kappa), np.asarray(kw["exactSolution"], dtype=float)):
             supplied_fail = "Poisson1D(exactSolution=%s): problem.exactSolution = %s -- the supplied array was replaced" % (kw["exactSolution"], kappa)
@@ -994,10 +1045,13 @@ def poisson_cases(spec, cell):
             cases.append(verdict_case(dict(spec, obs="grid"), cell + "/grid",
                                       "Poisson1D(dim=%d, endpoint=%r): the published range/solution grid %s is not the node grid %s on which the source term is sampled (first node 1/(dim-1) instead of endpoint/(dim-1))"
                                       % (n, ep, fl(tp.model.range_geometry.grid), grid), SIG_PG))
+    cases += default_cases
     if supplied_fail:
         cases.append(verdict_case(spec, cell, supplied_fail, "Poisson1D|exactSolution-argument"))
     if not rclose(y, want, 1e-8):
         cases.append(verdict_case(spec, cell, "exactData %s does not solve the documented discrete Poisson equation (observed nodes): %s" % (y, want), "Poisson1D|exactData"))
+    if spec.get("x") is not None and spec.get("_mx_ref") is None and identity_field(kw) and "observation_grid_map" not in kw:
+        spec = dict(spec, _mx_ref=[float(v) for v in poisson_ref(n, ep, [float(v) for v in spec["x"]], kw.get("source", "one"))])
     cases += common_cases(spec, tp, d, cell, ("snr", float(kw.get("SNR", 200))), None)
     return cases
 
@@ -1023,18 +1077,36 @@ def heat_cases(spec, cell):
     cases.append(Case(expr=cbool(len(y) == len(u)), meta=dict(spec, obs="shape"), cell=cell + "/shape", kind="DECISION", trivial=True))
     nsteps = len(tp.model.pde.time_steps) - 1
     u0 = fl(tp.exactSolution)
+    fdsc = kw.get("field", {})
+    step_named = kw.get("field_type") == "Step" or fdsc.get("type") == "Step"
+    if "exactSolution" not in kw and not step_named:   # documented default: x exp(-2x) sin(endpoint - x) on the nodes (of the geometry's grid)
+        gd = [dx * (i + 1) for i in range(N)]
+        want_u = [g_ * math.exp(-2 * g_) * math.sin(ep - g_) for g_ in gd]
+        if not rclose(u0, want_u):
+            cases.append(verdict_case(spec, cell, "default exactSolution %s is not x exp(-2x) sin(endpoint-x) on the nodes: %s" % (u0, want_u), "Heat1D|exactSolution-default"))
+        for i_, g_ in enumerate(gd):
+            e_, tac_ = encl("(heat_default_R %s %s)" % (cr(Fraction(ep)), cr(g_)), u0[i_])
+            cases.append(Case(expr=e_, tac=tac_, kind="ENCLOSURE", meta=dict(spec, obs="default-exactSolution", entry=i_), cell=cell + "/default-exactSolution"))
     if "exactSolution" in kw:        # a supplied exact solution (also an all-zero one) is the one the problem is built on
         if not np.array_equal(np.asarray(u0), np.asarray(kw["exactSolution"], dtype=float)):
             cases.append(verdict_case(spec, cell, "Heat1D(exactSolution=%s): problem.exactSolution = %s -- the supplied array was replaced" % (kw["exactSolution"], u0), "Heat1D|exactSolution-argument"))
         u0 = [float(v) for v in kw["exactSolution"]]
-    fn = "check_heat_every2" if "observation_grid_map" in kw else "check_heat"
-    cases.append(Case(expr="%s tol9 %s %s %s %s %s %s" % (fn, cnat(N), cqc(Fraction(ep)), cqc(Fraction(T) if spec.get("scale") else Fraction(T).limit_denominator(1000)), cnat(nsteps), cqcvec(u0), cqcvec(y)),
+    if "observation_grid_map" in kw:
+        g_ = np.array([dx * (i + 1) for i in range(N)])
+        idx_ = [int(np.argmin(abs(g_ - s_))) for s_ in OBSMAPS[kw["observation_grid_map"]](g_)]
+        fn = "check_heat_sel"
+        tail_ = "%s %s" % (clist([cnat(i_) for i_ in idx_]), cqcvec(y))
+    else:
+        fn, tail_ = "check_heat", cqcvec(y)
+    cases.append(Case(expr="%s tol9 %s %s %s %s %s %s" % (fn, cnat(N), cqc(Fraction(ep)), cqc(Fraction(T) if spec.get("scale") else Fraction(T).limit_denominator(1000)), cnat(nsteps), cqcvec(u0), tail_),
                       meta=dict(spec, obs="solution"), cell=cell + "/solution", kind="EXACT"))
     gridref = [dx * (i + 1) for i in range(N)]
     if not rclose(np.asarray(tp.model.domain_geometry.grid, dtype=float), gridref) or nsteps != steps:
         cases.append(verdict_case(spec, cell, "Heat1D grid %s / %d time steps, documented nodes %s / %d steps" % (tp.model.domain_geometry.grid, nsteps, gridref, steps), "Heat1D|grid"))
     if not rclose(y, u, 1e-8):
         cases.append(verdict_case(spec, cell, "exactData %s is not the forward-Euler solution of the heat equation at max_time: %s" % (y, u.tolist()), "Heat1D|exactData"))
+    if spec.get("x") is not None and spec.get("_mx_ref") is None and identity_field(kw) and "observation_grid_map" not in kw:
+        spec = dict(spec, _mx_ref=[float(v) for v in heat_ref(N, ep, T, [float(v) for v in spec["x"]])])
     cases += common_cases(spec, tp, d, cell, ("snr", float(kw.get("SNR", 200))),
                           "Noise type: Additive i.i.d. noise with mean zero and signal to noise ratio: %s" % kw.get("SNR", 200))
     return cases
@@ -1090,8 +1162,16 @@ def field_forward_ref(spec, p):
     if tpk == "heat":
         return f, heat_ref(n, ep, kw.get("max_time", 0.2), f), g.par_dim
     if tpk == "poisson":
-        if np.min(f) < 0.05:
-            return f, None, g.par_dim          # conductivity not safely positive: the solve is not a well-posed reference
+        # any sign of the conductivity is accepted as long as the discrete operator is well conditioned (the check is a residual)
+        N_ = n - 1
+        Dx_ = np.zeros((N_ + 1, N_)); Dx_[0, 0] = 1
+        for r_ in range(1, N_ + 1):
+            Dx_[r_, r_ - 1] = -1
+            if r_ < N_:
+                Dx_[r_, r_] = 1
+        A_ = Dx_.T @ np.diag(f) @ Dx_
+        if not np.all(np.isfinite(A_)) or np.linalg.cond(A_) > 1e5:
+            return f, None, g.par_dim
         return f, poisson_ref(n, ep, f, kw.get("source", "one")), g.par_dim
     return f, abel_ref(n, ep) @ f, g.par_dim
 
@@ -1194,6 +1274,7 @@ def cubic_cases(spec, cell):
         cases.append(verdict_case(dict(spec, obs="arguments"), cell + "/arguments",
                                   "WangCubic(data=%r): problem.data = %r, likelihood.data = %r -- the supplied observation is %r (the default 1 applies only when data is omitted)"
                                   % (kw.get("data", "<omitted>"), tp.data, tp.likelihood.data, data), "WangCubic|data"))
+    spec = dict(spec, _mx_ref=[float(wf)])
     cases += common_cases(spec, tp, d, cell, ("given", float(kw.get("noise_std", 1)), float(data)),
                           "Noise type: Additive Gaussian with std: {}".format(kw.get("noise_std", 1)))
     return cases
@@ -1209,6 +1290,11 @@ def py_round(q):
 
 PC = ([Fraction(1, 10), Fraction(15, 100), Fraction(2, 10), Fraction(25, 100), Fraction(3, 10), Fraction(6, 10)], [0, 2, 3, 2, 0, 1, 0])
 SKY = ([Fraction(k, 100) for k in (10, 15, 20, 25, 35, 38, 45, 55, 75, 80)], [0, 1.5, 0, 1.3, 0, 0.75, 0, 0.25, 0, 1, 0])
+
+
+# the break points as the binary64 literals the documentation/code state them with
+PCF = ([0.1, 0.15, 0.2, 0.25, 0.3, 0.6], [0, 2, 3, 2, 0, 1, 0])
+SKYF = ([0.10, 0.15, 0.20, 0.25, 0.35, 0.38, 0.45, 0.55, 0.75, 0.8], [0, 1.5, 0, 1.3, 0, 0.75, 0, 0.25, 0, 1, 0])
 
 
 def pw_safe(breaks, dim):
@@ -1252,12 +1338,8 @@ def doc_phantom(kind, dim, param):
             x[dimh - 1 + k_] = (w - k_) / w
         return x
     if kind in ("pc", "skyscraper"):
-        br, vals = PC if kind == "pc" else SKY
-        out = []
-        for i in range(dim):
-            xx = Fraction(i, dim - 1) if dim > 1 else Fraction(0)
-            out.append(float(vals[sum(1 for b in br if b <= xx)]))
-        return out
+        br, vals = PCF if kind == "pc" else SKYF
+        return [float(vals[sum(1 for b in br if b <= xx)]) for xx in [float(v) for v in np.linspace(0, 1, dim)]]
     raise ValueError(kind)
 
 
@@ -1284,8 +1366,9 @@ def phantom_cases(kind, dim, param):
         mod = "(Some (phantom_square %s %s))" % (cnat(dim), cq(Fraction(p))) if kind == "square" else "(phantom_hat %s %s)" % (cnat(dim), cq(Fraction(p)))
         cases.append(Case(expr="check_phantom tol9 %s %s" % (mod, copt(obs, cqcvec)), meta=spec, cell=cell, kind="EXACT"))
     elif kind in ("pc", "skyscraper"):
-        nm = "pc" if kind == "pc" else "sky"
-        cases.append(Case(expr="pw_safe %s_breaks %s && check_phantom tol9 (Some (phantom_pw %s_breaks %s_vals %s)) %s" % (nm, cnat(dim), nm, nm, cnat(dim), copt(obs, cqcvec)),
+        br, vals = PCF if kind == "pc" else SKYF
+        mesh = [float(v) for v in np.linspace(0, 1, dim)]          # numpy's linspace is an oracle, its values enter exactly
+        cases.append(Case(expr="check_phantom tol9 (Some (phantom_pw_f %s %s %s)) %s" % (clist([cq(b) for b in br]), clist([cq(v) for v in vals]), clist([cq(m_) for m_ in mesh]), copt(obs, cqcvec)),
                           meta=spec, cell=cell, kind="EXACT"))
     else:
         p = 5 if param is None else param
@@ -1303,12 +1386,23 @@ def phantom_cases(kind, dim, param):
                 mod = "(IZR 1)" if p * T[i] == 0 else "(ph_sinc_R %s %s)" % (cr(p), cr(T[i]))
             elif kind == "vonmises":
                 mod = "(ph_vonmises_R %s %s %s)" % (cr(p), cr(T[i]), cr(tm))
+                e, tac = encl(mod, obs[i])
+                # the maximum point is computed by the model (vonmises_tm) and must equal the value used in the enclosure
+                cases.append(Case(expr="(Qeq_bool (vonmises_tm %s) %s = true) /\\ %s" % (cnat(dim), cq(tm), e), tac="c17_both.", kind="ENCLOSURE",
+                                  meta=dict(spec, entry=i), cell=cell))
+                continue
             elif kind == "bumps":
                 mod = "(ph_bumps_R %s %s)" % (cr(dim), cr(Fraction(2 * i + 1, 2)))
             else:
                 mod = "(ph_dgauss_R %s %s %s %s %s)" % (cr(p), cr(T1[i]), cr(T1[i + 1]), cr(T1[j]), cr(T1[j + 1]))
             e, tac = encl(mod, obs[i])
             cases.append(Case(expr=e, tac=tac, kind="ENCLOSURE", meta=dict(spec, entry=i), cell=cell))
+    if kind == "derivgauss":
+        # the index of the maximal increment is a certificate: every increment is enclosed below the chosen one
+        for k_ in range(dim):
+            if k_ != j:
+                cases.append(Case(expr="(dgauss_inc_R %s %s %s <= dgauss_inc_R %s %s %s + IZR 1 / IZR 1000000000000)%%R" % (cr(p), cr(T1[k_]), cr(T1[k_ + 1]), cr(p), cr(T1[j]), cr(T1[j + 1])),
+                                  tac="c17_encl.", kind="ENCLOSURE", meta=dict(spec, entry="max-%d" % k_), cell=cell + "/max-certificate"))
     if detail:
         cases.append(verdict_case(spec, cell, detail, "_getExactSolution|%s" % kind))
     return cases
@@ -1546,6 +1640,14 @@ def specs(ctx):
         kw = dict({"dim": 3, "BC": rng.choice(["zero", "periodic", "nearest", "neumann", "mirror"]), "phantom": [[rng.randint(1, 5) for _ in range(3)] for _ in range(3)], "noise_std": 0.5}, **kwf)
         out.append(({"tp": "deconv2d", "kw": kw, "style": sty, "img": [ivec(rng, 3) for _ in range(3)], "z": zvec(rng, 9, k), "x": dyvec(rng, 9)},
                     "Deconvolution2D/dispatch/" + nm, "deconv2d"))
+    # phantoms by name (lower-cased, hyphens -> underscores): the image of cuqi.data with that name, resized to dim
+    for nm, ref in [("satellite", "satellite"), ("Shepp-Logan", "shepp_logan"), ("COOKIE", "cookie"), ("p-power", "p_power"), ("grains", "grains"), ("camera", "camera"),
+                    ("astronaut", "astronaut"), ("cat", "cat")]:
+        for n in [4, 5]:
+            k += 1
+            kw = {"dim": n, "PSF": psf2(rng.choice(["3x3asym", "2x2"])), "BC": rng.choice(["zero", "periodic", "nearest", "neumann", "mirror"]), "phantom": nm, "noise_std": 0.5}
+            out.append(({"tp": "deconv2d", "kw": kw, "phantom_ref": ref, "img": [ivec(rng, n) for _ in range(n)], "z": zvec(rng, n * n, k), "x": dyvec(rng, n * n)},
+                        "Deconvolution2D/phantom-name", "deconv2d"))
     out.append(({"tp": "deconv2d", "kw": {"dim": 3, "PSF": [[1, 2], [3, 4]], "phantom": [[1, 2, 3], [0, 1, 0], [2, 0, 1]], "noise_std": 0}, "z": [1.0] + [0.0] * 8},
                 "Deconvolution2D/falsy/noise_std-0", "zero-noise"))
     for kw, refused in [({"dim": 3, "BC": "reflect"}, True), ({"dim": 3, "PSF": 3}, True), ({"dim": 3, "noise_type": "poisson", "PSF": [[1]], "phantom": [[1, 2, 3]] * 3}, True),
@@ -1577,6 +1679,8 @@ def specs(ctx):
     out.append(({"tp": "abel", "kw": {"dim": 4}, "z": zvec(rng, 4, 1), "x": dyvec(rng, 4, 1, 8)}, "Abel1D/all-defaults", "abel"))
     out.append(({"tp": "poisson", "kw": {"dim": 5, "source": "zero"}, "z": zvec(rng, 4, 2), "x": dyvec(rng, 5, 2, 8)}, "Poisson1D/falsy/source-zero", "poisson"))
     out.append(({"tp": "poisson", "kw": {"dim": 5, "source": "lin", "field_params": {}}, "z": zvec(rng, 4, 2), "x": dyvec(rng, 5, 2, 8)}, "Poisson1D/falsy/field_params-empty", "poisson"))
+    out.append(({"tp": "poisson", "kw": {"dim": 7, "endpoint": 1, "source": "lin", "observation_grid_map": "upper"}, "z": zvec(rng, 3, 1), "x": dyvec(rng, 7, 2, 8)}, "Poisson1D/obsmap-upper", "poisson"))
+    out.append(({"tp": "heat", "kw": {"dim": 6, "endpoint": 1, "observation_grid_map": "upper"}, "z": zvec(rng, 3, 1), "x": dyvec(rng, 6)}, "Heat1D/obsmap-upper", "heat"))
     for nm, kwf in [("exactSolution-zeros", {"exactSolution": [0.0] * 4}), ("exactSolution-with-zeros", {"exactSolution": [0.0, 1.0, 0.0, 2.0]}), ("max_time-0", {"max_time": 0}),
                     ("max_time-0.0", {"max_time": 0.0, "exactSolution": [1.0, 0.0, 2.0, 0.5]}), ("field_params-empty", {"field_params": {}}), ("all-defaults", {})]:
         k += 1
@@ -1757,11 +1861,9 @@ def run(ctx):
     for kind, params in [("gauss", [None, 2, 0]), ("sinc", [None, 3, 0.0]), ("vonmises", [None, 2, 0]), ("bumps", [None]), ("derivgauss", [None, 3]),
                          ("square", [None, 3, 4]), ("hat", [None, 3, 4]), ("pc", [None]), ("skyscraper", [None])]:
         for param in params:
-            dims = {"pc": [1, 4, 8, 12, 14], "skyscraper": [4, 8, 12, 14, 18]}.get(kind, [2, 5, 6, 7, 8, 10] + ([16, 31] if kind in ("square", "hat") else []))
+            dims = {"pc": [1, 4, 6, 11, 21, 14], "skyscraper": [4, 11, 21, 14, 51, 101]}.get(kind, [2, 5, 6, 7, 8, 10] + ([16, 31] if kind in ("square", "hat") else []))
             if kind in ("square", "hat") and param is not None:
                 dims = [d_ for d_ in dims if d_ >= 6]
-            if kind in ("pc", "skyscraper"):
-                dims = [d_ for d_ in dims if pw_safe((PC if kind == "pc" else SKY)[0], d_)]
             if not ctx.thorough:
                 dims = dims[::2] + dims[-1:]
             for dim in dims:
@@ -1819,6 +1921,8 @@ WITNESSES = {
     SIG_D: {"tp": "psf1d", "kind": "defocus", "n": 5, "param": 1, "handler": "psf"},
     SIG_HS: {"tp": "heat", "kw": {"dim": 5, "SNR": 200, "endpoint": 1, "field": {"type": "Step", "params": {"n_steps": 2}, "map": "affine", "imap": True}},
              "z": [0.0] * 5, "x": [0.5, 1.0], "handler": "field"},
+    SIG_PP: {"tp": "deconv2d", "kw": {"dim": 5, "PSF": [[1, 2], [3, 4]], "BC": "zero", "phantom": "p-power", "noise_std": 0.5}, "phantom_ref": "p_power",
+             "img": [[0] * 5] * 5, "z": [0.0] * 25, "x": [0.0] * 25, "handler": "deconv2d"},
     SIG_PG: {"tp": "poisson", "kw": {"dim": 3, "endpoint": 2, "SNR": 200, "source": "one"}, "z": [0.0, 1.0], "x": [2.0, 1.75, 0.5], "handler": "poisson"},
     SIG_D0: {"tp": "deconv1d", "kw": {"dim": 6, "PSF": "defocus", "PSF_size": 3, "PSF_param": 0, "phantom": [1, 2, 3, 4, 5, 6], "noise_std": 0.5},
              "z": [0.0] * 6, "handler": "deconv1d"},
